@@ -15,6 +15,7 @@ FUNCTIONS = ["xgcm.grid:Grid.set_metrics", "xgcm.grid:Grid.get_metric", "xgcm.me
              "xgcm.grid:Grid.cumint", "xgcm.grid:Grid._1d_grid_ufunc_dispatch", "xgcm.grid:Grid.cumsum"]
 BOUNDS = {
     "quick": {"selection": "2 axes with positions X {center,left}, Y {center,right}; pool of 8 metric variables (2 per single axis, 4 areas); every registry of <= 3 variables (92), registered in pool order; 4 array positions x requests (X),(Y),(X,Y),(Y,X); N=2; data and every metric cell symbolic (positive)",
+              "single axis, 3-5 positions": "layouts {c,l,o},{c,r,i},{c,l,r},{c,i,o},{all five}; metrics registered at every 1-2 of the positions; array at every position; N in {2,3}",
               "operations": "integrate (all axis orders), average (constant field and general), derivative, metric_weighted diff/interp/min/cumsum (list, tuple, bare-name and per-axis-mapping spellings, the last in a two-axis call) on a fully registered 2-axis grid, N in {2,3}"},
     "thorough": {"selection": "+ reversed registration order; 3 axes X,Y (center,left), Z (center,outer): pool of 26, every registry of <= 2 variables and a seeded sample of 600 registries of 3-4; 8 array positions x 7 axis subsets",
                  "operations": "+ 3 axes"},
@@ -64,6 +65,13 @@ def cases(tier):
         big = [tuple(rng.sample(P3, k)) for k in (3, 4) for _ in range(300)]
         for r in regs3 + big:
             out.append(dict(kind="sel", axes=["X", "Y", "Z"], reg=list(r), N=2))
+    # one axis with three or more positions: the array's position is then not "the other one", so the interpolation
+    # must really go to the array's position (not to the axis' default shift)
+    for layout in (("center", "left", "outer"), ("center", "right", "inner"), ("center", "left", "right"), ("center", "inner", "outer"), ("center", "left", "right", "inner", "outer")):
+        for k in (1, 2):
+            for reg in itertools.combinations(layout, k):
+                for N in ((2, 3) if len(layout) == 3 else (3,)):
+                    out.append(dict(kind="sel1", layout=list(layout), reg=list(reg), N=N))
     for N in (2, 3):
         for axes in ([["X", "Y"]] if tier == "quick" else [["X", "Y"], ["X", "Y", "Z"]]):
             npos = 2 ** len(axes)
@@ -175,7 +183,95 @@ def product_da(cand):
 
 
 def case(W, cfg):
+    if cfg["kind"] == "sel1":
+        return case_sel1(W, cfg)
     return case_sel(W, cfg) if cfg["kind"] == "sel" else case_ops(W, cfg)
+
+
+def case_sel1(W, cfg):
+    """single axis with >= 3 positions, metrics registered at the positions `reg`: for an array at every position the
+    metric is the one registered there, else one of the registered ones moved to the array's position.  A move between
+    centre and another position is the stencil oracle's interpolation with nearest-value extension (exact).  For a move
+    between two non-centre positions the statement fixes no weights: only what it does say is demanded - the metric lies
+    on the array's dimension, and every cell lies within the range of the source metric (interpolation with nearest-value
+    extension cannot leave it)."""
+    import xgcm
+    from specs.stencil import plen as plen5
+    from sx.core import SBool
+    import z3
+    layout, reg, N = tuple(cfg["layout"]), cfg["reg"], cfg["N"]
+    dimof = {q: "x" + q[0] for q in layout}
+    ds = xr.Dataset(coords={d: np.arange(plen5(q, N)) * 1.0 for q, d in dimof.items()})
+    vals = {}
+    for q in reg:
+        arr = W.data("m_" + q, (plen5(q, N),), gen=lambda r: r.randint(2, 24) / 4.0)
+        if W.sym:
+            for x in arr.ravel():
+                W.assume(x.t > 0)
+        ds["m_" + q] = ((dimof[q],), arr)
+        vals[q] = arr
+    with warnings.catch_warnings():
+        warnings.simplefilter("ignore")
+        grid = xgcm.Grid(ds, coords={"X": dict(dimof)}, periodic=False, metrics={("X",): ["m_" + q for q in reg]}, autoparse_metadata=False)
+    for pos in layout:
+        if plen5(pos, N) < 1:
+            continue
+        a = W.data("a", (plen5(pos, N),))
+        arr = xr.DataArray(a, dims=[dimof[pos]])
+        lab = "X@%s|reg=%s" % (pos, ",".join(reg))
+        with warnings.catch_warnings(record=True) as w:
+            warnings.simplefilter("always")
+            try:
+                got, err = grid.get_metric(arr, ("X",)), None
+            except Exception as e:  # noqa
+                got, err = None, "%s: %s" % (type(e).__name__, str(e)[:100])
+        warned = any("interpolated" in str(x.message) for x in w)
+        W.require("sel1-no-error:" + lab, err is None, "get_metric raised %s" % err)
+        if err:
+            continue
+        W.require("sel1-on-the-array's-dimension:" + lab, tuple(got.dims) == (dimof[pos],), "metric dims %s, array dims %s" % (got.dims, arr.dims))
+        if tuple(got.dims) != (dimof[pos],):
+            continue
+        g = list(got.data)
+        if pos in reg:
+            W.equal("sel1-registered-at-position:" + lab, g, list(vals[pos]))
+            continue
+        exact = [q for q in reg if "center" in (q, pos)]
+        ok = False
+        for q in exact:
+            want = spec_1d(list(vals[q]), q, pos, N, "interp", "extend", 0.0)
+            if len(want) == len(g) and W.holds(g, want):
+                ok = True
+                break
+        if not ok:
+            for q in reg:
+                if q in exact:
+                    continue
+                src = list(vals[q])
+                if W.sym:
+                    conds = []
+                    for cell in g:
+                        ct = harness.lift(cell)
+                        conds.append(z3.And(z3.Or([ct >= harness.lift(v) for v in src]), z3.Or([ct <= harness.lift(v) for v in src])))
+                    ok = W.holds_claim(z3.And(conds))
+                else:
+                    ok = all(min(src) - 1e-9 <= float(cell) <= max(src) + 1e-9 for cell in g)
+                if ok:
+                    break
+        W.require("sel1-admissible:" + lab, ok, "metric at %s for an array at %s is none of the registered metrics moved there: %s" % (reg, pos, str(g[0])[:120]))
+        if ok:
+            W.require("sel1-warns-when-interpolating:" + lab, warned, "interpolated silently")
+        # integrate uses that metric and sums over the array's dimension
+        try:
+            r = grid.integrate(arr, "X")
+            W.require("sel1-integrate-dims:" + lab, tuple(r.dims) == (), "integrate over the only dimension left dims %s" % (r.dims,))
+            if tuple(r.dims) == ():
+                tot = 0.0
+                for x, m in zip(a, g):
+                    tot = tot + x * m
+                W.equal("sel1-integrate=sum(data*metric):" + lab, [r.data[()]], [tot], record=False)
+        except Exception as e:  # noqa
+            W.fail("sel1-integrate-raises:" + lab, "%s: %s" % (type(e).__name__, str(e)[:120]))
 
 
 def make_grid(ds, axes, metrics):
